@@ -107,9 +107,16 @@ def cached_objects():
     return ids, content
 
 
+def blas_threads_digest(payload):
+    """worker (its own process, BLAS threading NOT capped): one fit of a wide series with the given worker count"""
+    cfg, procs, mp = payload
+    r = run_cfg(cfg, procs=procs, mp=mp)
+    return digest(r)
+
+
 def run(ctx):
     pyr = random.Random(ctx.seed)
-    ctx.proof_layer(allowed_axioms=(), coq_deps=[], gen=["gl_retrieve"])
+    ctx.proof_layer(allowed_axioms=(), coq_deps=[], gen=["gl_retrieve", "front_single", "front_joint"])
     core.note_drift(ctx, ANCHORS)
     exp = json.load(open(os.path.join(core.VERIF, "vcheck", "expected_inventory.json")))
     cov = core.LineCoverage()
@@ -212,6 +219,22 @@ def run(ctx):
     cs = inventory.cache_sites()
     ctx.notes["nondeterminism_sources"] = nd
     ctx.notes["cache_sites"] = cs
+    machine = [x for x in nd if x not in exp["nondeterminism"] and ("cpu_count" in x["call"] or "threadpool" in x["call"] or "num_threads" in x["call"]
+                                                                    or "affinity" in x["call"] or "platform." in x["call"])]
+    if machine:
+        # the source now looks at the machine (core count, BLAS thread pools): search for the concrete dependence with BLAS threading
+        # NOT capped - the same fit of a wide series (NW = 140) in fresh processes with 1, 2, 4 and 8 worker processes
+        wide = {"N": 14, "W": 10, "K": 2, "beta": 5.0, "lam": 0.11, "limit": 2, "m": 5, "biased": False, "eps": 0, "joint": False,
+                "lengths": [700], "data_seed": 1414, "rng_seed": 1414, "regimes": 2}
+        uncapped = {"OPENBLAS_NUM_THREADS": "", "OMP_NUM_THREADS": "", "MKL_NUM_THREADS": ""}
+        handles = {(p_, mp_): core.start_worker(ctx, "vcheck.props.c14:blas_threads_digest", (wide, p_, mp_), mode="interp", extra_env=uncapped, tag="blas%d%d" % (p_, mp_))
+                   for (p_, mp_) in ((1, False), (2, True), (4, True), (8, True))}
+        got = {k: core.wait_worker(h, timeout=900) for k, h in handles.items()}
+        digs = {k: (v["result"] if v["ok"] else "worker failed: " + v["error"][:80]) for k, v in got.items()}
+        ctx.count("blas-thread-comparison", len(digs))
+        if len(set(digs.values())) > 1:
+            ctx.violation("monitor", "with BLAS threading left to the library, the same fit (700 x 14, window 10) gives different results for different numbers of worker "
+                          "processes: %s" % {"%d workers, mp %s" % k: v[:12] for k, v in digs.items()}, {"case": {"cfg": wide, "variants": [list(k) for k in digs]}})
     if nd != exp["nondeterminism"]:
         ctx.violation("tie:inventory", "randomness / time / identity / unordered-completion sources in the source differ from the reviewed list: %s" % nd,
                       {"correspondence": "inventory:nondeterminism", "found": nd, "expected": exp["nondeterminism"]},
